@@ -100,6 +100,14 @@ def main():
     except ValueError:
         seed = 0
     t0 = time.time()
+    # run budget: the quick check is stopped from outside after 900 s, so it stops itself before that and reports what it
+    # did not get to as not explored; override with VERIF_BUDGET_S
+    try:
+        budget = float(os.environ.get("VERIF_BUDGET_S", "800" if tier == "quick" else "43200"))
+    except ValueError:
+        budget = 800.0
+    reserve = 150.0 if tier == "quick" else 900.0     # native replays and evidence
+    deadline = t0 + budget - reserve
     mod = importlib.import_module("props." + prop.lower())
     kfs = core.open_findings(prop)
     kf_ids = [k["id"] for k in kfs]
@@ -125,6 +133,7 @@ def main():
     kf_seen = []
     vio_lines = []
     results = []
+    em_future = None
     try:
         ws.write_gen(feature, jobs, plan.get("extra_gen", ""))
         for extra_feature, extra_src in plan.get("extra_files", {}).items():
@@ -144,7 +153,17 @@ def main():
                 log("build-only: %d harnesses compiled, %d planned names missing: %s" % (len(full), len(missing), missing[:5]))
                 ws.cleanup()
                 sys.exit(0 if not missing else 2)
-            results = core.run_jobs(ws, features, jobs, workers=args.workers or plan.get("workers"))
+            em_future = None
+            want_em = (plan.get("engine_m") and not args.only) or (plan.get("engine_m") and args.only == "enginem")
+            nwork = args.workers or plan.get("workers")
+            if want_em:
+                # the MIR -> SMT obligations run next to the Kani pool (their main loop is one solver process)
+                import concurrent.futures as _cf
+                import enginem
+                _ex = _cf.ThreadPoolExecutor(max_workers=1)
+                em_future = _ex.submit(enginem.run, prop, tier, seed, ws.dir, log, plan["engine_m"], deadline, 5)
+                nwork = max(2, (nwork or (core.NCPU - 2)) - (5 if "tofixed" in plan["engine_m"] else 2))
+            results = core.run_jobs(ws, features, [j for j in jobs if args.only != "enginem"], workers=nwork, deadline=deadline)
 
         replayed = 0
         for r in results:
@@ -188,7 +207,7 @@ def main():
                 continue
             # refuted: replay natively before reporting
             d0, loc0 = bad[0]
-            if replayed >= 3:
+            if replayed >= 3 or (replayed >= 1 and violations >= 1 and time.time() > deadline + reserve * 0.4):
                 # enough reproduced evidence; remaining refutations are listed unreplayed
                 inconclusive.append((j.name, "refuted (%s at %s); not replayed (cap)" % (d0, loc0)))
                 continue
@@ -238,9 +257,10 @@ def main():
 
         # ---------------- Engine M (MIR -> SMT) obligations of this property
         em = None
-        if plan.get("engine_m") and not args.only and exit_code != 2 or (plan.get("engine_m") and args.only == "enginem"):
-            import enginem
-            em = enginem.run(prop, tier, seed, ws.dir, log, families=plan["engine_m"])
+        if rc == 0 and not args.build_only and em_future is not None:
+            em = em_future.result()
+            for n in em.get("skipped", []):
+                undecided.append((n, "exceeded run budget (not started)"))
             for (n, why) in em["inconclusive"]:
                 inconclusive.append((n, why))
             for rp in em["violations"]:
@@ -252,8 +272,9 @@ def main():
             inconclusive.append(("_plan", note))
         for n, why in undecided:
             log("UNDECIDED (resource limit, not explored) %s: %s" % (n, why))
-        if undecided and len(undecided) * 5 > max(1, len(jobs)):
-            inconclusive.append(("_resources", "%d of %d obligations hit the time/memory limit of this run" % (len(undecided), len(jobs))))
+        hard = [u for u in undecided if "run budget" not in u[1]]
+        if hard and len(hard) * 5 > max(1, len(jobs)):
+            inconclusive.append(("_resources", "%d of %d obligations hit their own time/memory limit" % (len(hard), len(jobs))))
         for n, why in inconclusive:
             log("INCONCLUSIVE %s: %s" % (n, why))
         for v in vio_lines:
@@ -283,10 +304,11 @@ def main():
                     "VERIFICATION SUCCESSFUL over >0 generated checks with unwinding assertions on, and every "
                     "'W:' reachability witness (kani::cover!) of that harness was SATISFIED",
             "samples": samples,
-            "obligations": len(jobs) + (len(em["results"]) if em else 0),
+            "obligations": len(jobs) + (len(em["results"]) + len(em.get("skipped", [])) if em else 0),
             "discharged": len(discharged) + (len([r for r in em["results"] if r["verdict"] == "ok"]) if em else 0),
             "inconclusive": len(inconclusive),
             "undecided_resource_limit": [n for n, _ in undecided],
+            "run_budget_s": budget,
             "known_findings_seen": kf_seen,
             "solver_s": round(sum(r.solver_s for r in results), 1),
             "checks_generated": sum(r.nchecks for r in results),
